@@ -278,7 +278,9 @@ pub fn run(opts: &Opts) -> i32 {
         }
         After::Continue
     });
-    rep.sample(8, || json!({"match_case": {"filter": filters[filters.len() / 2].0, "topic": topics[topics.len() / 2]}}));
+    if !filters.is_empty() && !topics.is_empty() {
+        rep.sample(8, || json!({"match_case": {"filter": filters[filters.len() / 2].0, "topic": topics[topics.len() / 2]}}));
+    }
 
     // 3. covering: f.matches_filter(g) => topics(g) subset of topics(f)  (reference bitsets)
     let small: Vec<&(String, TopicFilter)> =
